@@ -2124,6 +2124,21 @@ export class ObjectRuntype extends BaseRuntype {
       return annotateSchema(this.metadata, indexSchemas[0]);
     }
 
+    if (indexSchemas.length === 1) {
+      // additionalProperties only constrains the keys that are not declared, like the validator does: a declared
+      // property may keep more than the index signature's value type admits ({ o: { x; y }; [k: string]: { x } })
+      const { additionalProperties, propertyNames } = indexSchemas[0];
+      const anyString =
+        typeof propertyNames === "object" &&
+        Object.keys(propertyNames).length === 1 &&
+        propertyNames.type === "string";
+      return annotateSchema(this.metadata, {
+        ...base,
+        additionalProperties,
+        propertyNames: anyString ? propertyNames : { anyOf: [propertyNames!, { enum: Object.keys(properties) }] },
+      });
+    }
+
     return annotateSchema(this.metadata, {
       allOf: [base, ...indexSchemas],
     });
